@@ -832,6 +832,9 @@ def run(tier, seed, replay=None):
         "ordered key list of tm.transforms / tm.nodes; frame names follow the parser's naming convention (structured names "
         "instead of regular expressions: link or collision names with '/' or regex metacharacters are outside the model)",
         "an exception ends a modelled history (no model of partially updated objects)",
+        "taking a collider out of a BVH has no method: the histories do `del bvh.colliders_[f]; bvh.collider_frames.discard(f)` "
+        "on the public attributes (model: Remove); replacement = add_collider under a frame name in use; both are judged "
+        "against the property only after the next update_collider_poses (until then the tree still holds the old leaf)",
         "harness/compat.py import shim; numpy/numba/CPython; Python dict order = insertion order",
     ]
     R.check_proofs(PROOF_FILES, build_targets=["theories/Props/C06.vo", "theories/Model/BvhRun.vo",
